@@ -106,6 +106,8 @@ fn main() {
         #[cfg(feature = "scaled")]
         "c11-stack" => comp::c11_stack_cases(&mut rng, &tier, &mut out),
         #[cfg(feature = "scaled")]
+        "c08-stack" => comp::c08_stack_cases(&mut rng, &tier, &mut out),
+        #[cfg(feature = "scaled")]
         "c11-cw" => comp::c11_cw_cases(&mut rng, &tier, &mut out),
         #[cfg(feature = "scaled")]
         "c11-enc" => enc::c11_enc_cases(&mut rng, &tier, &mut out),
